@@ -87,7 +87,7 @@ def _wrap180(d):
 
 def body_kepler(case):
     e, M = case["e"], case["M"]
-    E_a, v_a = C.kepler_equation(e, Angle(M))
+    E_a, v_a = C.kepler_equation(e, S.angle_with_tolerance(M))   # tolerance is no part of the value
     if not (isinstance(E_a, Angle) and isinstance(v_a, Angle)):
         raise Violation("kepler_equation did not return two Angles", site="Coordinates.kepler_equation",
                         kind="type")
